@@ -51,6 +51,7 @@ type sess struct {
 	got     []wamp.Message
 	gotAt   []time.Duration
 	nextReq wamp.ID
+	slow    bool // the router-side peer parks the session's handler in every message (see shutdown.go)
 	// pending invocations delivered to this session (as callee), oldest first
 	invocations []*wamp.Invocation
 }
@@ -70,8 +71,14 @@ type world struct {
 }
 
 func realmCfg(uri string) *router.RealmConfig {
-	return &router.RealmConfig{URI: wamp.URI(uri), AnonymousAuth: true, AllowDisclose: true, EnableMetaKill: true}
+	// The Authorizer allows everything; with one configured the session handler asks the peer
+	// IsLocal() for every message, which is where a "slow" peer parks it (shutdown.go).
+	return &router.RealmConfig{URI: wamp.URI(uri), AnonymousAuth: true, AllowDisclose: true, EnableMetaKill: true, Authorizer: allowAll{}}
 }
+
+type allowAll struct{}
+
+func (allowAll) Authorize(*wamp.Session, wamp.Message) (bool, error) { return true, nil }
 
 func newWorld(realms ...string) (*world, error) {
 	cfg := &router.Config{}
